@@ -327,6 +327,9 @@ def run(ck):
                     row = loop_rows.get(key)
                     ck.ob('R7.7', 'loop|' + key, row is not None, crate.loc(n),
                           row['reason'] if row else 'unreviewed %s loop (no progress argument in tables/loops.json): %s' % (n.get('src'), pp(n, maxlen=80)), fn=fn['path'])
+                    if row is not None and (row.get('guard') or {}).get('kind') == 'visited':
+                        ok, why = visited_guard_ok(crate, fn, n)
+                        ck.ob('R7.7', 'visited-guard|' + key, ok, crate.loc(n), why, fn=fn['path'])
     ck.floor('R7.7', n_loops, 13, 'loop/while loops')
     n_scc = 0
     for crate in F.all_crates():
@@ -393,6 +396,40 @@ def range_ok(fn, arg):
     if problems:
         return False, 'range derives from %s (arithmetic or unknown source: may leave the text or split a character)' % '; '.join(problems[:3])
     return True, 'derives from byte_range()/start/end of syntax nodes or IR items (%d origin(s)), no arithmetic' % n_ok
+
+
+def visited_guard_ok(crate, fn, loop):
+    """A work-list loop terminates because an item is expanded at most once: there is a test-and-set on a visited structure
+    (mem::replace(&mut V[i], true) / V.insert(x) / V.contains + insert) whose "already seen" outcome skips every push onto the
+    work list (continue, or the pushes sit in the other branch), and it precedes all those pushes."""
+    pops = [c for c in H.calls_in(loop) if c.get('m') in ('pop', 'pop_front', 'pop_back')]
+    if not pops:
+        return False, 'no pop() in the loop'
+    wl = H.root_local(pops[0]['recv'])
+    wl_key = pp(H.strip_refs(pops[0]['recv']), maxlen=60)
+    pushes = [c for c in H.calls_in(loop) if c.get('m') in ('push', 'push_back', 'push_front', 'extend', 'append') and pp(H.strip_refs(c['recv']), maxlen=60) == wl_key]
+    if not pushes:
+        return True, 'nothing is pushed back onto the work list inside the loop'
+    tests = []
+    for iff in (x for x in walk(loop) if x.get('k') == 'If'):
+        c = iff['c']
+        t = pp(c, maxlen=200)
+        is_tas = ('mem::replace(' in t.replace('std::', '') or 'replace(' in t) and 'true' in t
+        is_ins = any(x.get('m') == 'insert' for x in H.calls_in(c)) or any(x.get('m') in ('contains', 'contains_key', 'contains_module') for x in H.calls_in(c))
+        if not (is_tas or is_ins):
+            continue
+        skip = any(x.get('k') == 'Continue' for x in walk(iff['then'])) or any(x.get('k') == 'Continue' for x in walk(iff.get('els', {'k': 'x'})))
+        guarded = all(any(y is p for y in walk(iff['then'])) or any(y is p for y in walk(iff.get('els', {'k': 'x'}))) for p in pushes)
+        before = all(H.source_before(iff['c'], p) for p in pushes)
+        if (skip and before) or guarded:
+            tests.append(t[:60])
+    # match-arm guards: `Some(x) if visited.insert(..) => push`
+    for arm in (x for x in walk(loop) if x.get('k') == 'Arm' and 'guard' in x):
+        if any(c.get('m') == 'insert' for c in H.calls_in(arm['guard'])) and all(any(y is p for y in walk(arm['body'])) for p in pushes):
+            tests.append(pp(arm['guard'], maxlen=60))
+    if tests:
+        return True, 'pushes onto the work list happen only for items not seen before (%s)' % tests[0]
+    return False, 'items are pushed back onto the work list (%d site(s)) without a test-and-set on a visited structure in front: an item reachable along several paths is expanded once per path (exponential, or endless on a cycle)' % len(pushes)
 
 
 def loop_disc(n, ordinal, seen):
